@@ -329,7 +329,8 @@ pub fn mul<E>(a: &[E], b: &[E]) -> Vec<E>
 where
     E: FieldElement,
 {
-    let result_len = a.len() + b.len() - 1;
+    // the product with the zero polynomial given without coefficients has no coefficients either
+    let result_len = (a.len() + b.len()).saturating_sub(1);
     let mut result = vec![E::ZERO; result_len];
     for i in 0..a.len() {
         for j in 0..b.len() {
@@ -417,6 +418,11 @@ where
     if bpos == 0 {
         assert!(!b.is_empty(), "cannot divide by empty polynomial");
         assert!(b[0] != E::ZERO, "cannot divide polynomial by zero");
+    }
+
+    // the zero polynomial given without coefficients divided by a non-zero constant is the zero polynomial
+    if a.is_empty() {
+        return Vec::new();
     }
 
     let mut result = vec![E::ZERO; apos - bpos + 1];
